@@ -847,6 +847,9 @@ func main() {
 			return res
 		})
 	}
+	casesFatal, err := os.Create(filepath.Join(*out, "cases_fatal.txt"))
+	hx.Must(err)
+	defer casesFatal.Close()
 	// (9') several files of one run end in a fatal error (unreadable files; files of a repository whose
 	// configuration is broken): the fatal error that is returned is the same one every time
 	{
@@ -868,6 +871,31 @@ func main() {
 		} {
 			fs := fs
 			sum.Dist["several_fatal_errors_runs"]++
+			{
+				// K: which file the fatal error names, against the model (first failing file in argument order)
+				res := lintFiles(fs, ci)
+				named := 0
+				var rs []string
+				for i, f := range fs {
+					if _, err := os.ReadFile(f); err != nil {
+						rs = append(rs, fmt.Sprintf("Some %d%%N", i+1))
+						if named == 0 && strings.Contains(res.Fail, "\""+f+"\"") {
+							named = i + 1
+						}
+					} else {
+						rs = append(rs, "None")
+					}
+				}
+				if strings.HasPrefix(res.Fail, "fatal") && named == 0 {
+					// the error names a file that is not the first unreadable one: find which
+					for i, f := range fs {
+						if strings.Contains(res.Fail, "\""+f+"\"") {
+							named = i + 1
+						}
+					}
+				}
+				fmt.Fprintf(casesFatal, "(%s, [[%d]]%%N)\n", hx.CoqList(rs), named)
+			}
 			check(fmt.Sprintf("multi-fatal:several-unreadable-files:%d", ci), fmt.Sprintf("%d files of which two or more cannot be read", len(fs)), strings.ReplaceAll(strings.Join(fs, "\n"), fp, "<proj>"), func(rep int) result {
 				res := lintFiles(fs, rep)
 				res.Fail = strings.ReplaceAll(res.Fail, fp, "<proj>")
